@@ -20,88 +20,144 @@ import (
 // MarshalJSON method shadows, e.g. FilterChain.TLSConfig when TLSContexts is
 // set).
 func Deep(v interface{}) []string {
-	var out []string
-	deep(reflect.ValueOf(v), "", &out, map[uintptr]bool{}, 0)
-	return out
+	b := DeepBytes(v)
+	if len(b) == 0 {
+		return nil
+	}
+	return strings.Split(strings.TrimSuffix(string(b), "\n"), "\n")
 }
 
-func deep(v reflect.Value, path string, out *[]string, seen map[uintptr]bool, depth int) {
+// DeepBytes is Deep as one newline-separated buffer (cheap to compare).
+func DeepBytes(v interface{}) []byte {
+	w := &deepWriter{seen: map[uintptr]bool{}}
+	w.deep(reflect.ValueOf(v), 0)
+	return w.out
+}
+
+type deepWriter struct {
+	path []byte
+	out  []byte
+	seen map[uintptr]bool
+}
+
+func (w *deepWriter) line(val string) {
+	w.out = append(w.out, w.path...)
+	w.out = append(w.out, " = "...)
+	w.out = append(w.out, val...)
+	w.out = append(w.out, '\n')
+}
+
+func (w *deepWriter) deep(v reflect.Value, depth int) {
 	if depth > 64 {
-		*out = append(*out, path+" = <too deep>")
+		w.line("<too deep>")
 		return
 	}
 	if !v.IsValid() {
-		*out = append(*out, path+" = <invalid>")
+		w.line("<invalid>")
 		return
 	}
+	n := len(w.path)
+	defer func() { w.path = w.path[:n] }()
 	switch v.Kind() {
 	case reflect.Ptr:
 		if v.IsNil() {
-			*out = append(*out, path+" = nil")
+			w.line("nil")
 			return
 		}
-		if seen[v.Pointer()] {
-			*out = append(*out, path+" = <cycle>")
+		if w.seen[v.Pointer()] {
+			w.line("<cycle>")
 			return
 		}
-		seen[v.Pointer()] = true
-		deep(v.Elem(), path+"*", out, seen, depth+1)
-		delete(seen, v.Pointer())
+		w.seen[v.Pointer()] = true
+		w.path = append(w.path, '*')
+		w.deep(v.Elem(), depth+1)
+		delete(w.seen, v.Pointer())
 	case reflect.Interface:
 		if v.IsNil() {
-			*out = append(*out, path+" = nil")
+			w.line("nil")
 			return
 		}
-		deep(v.Elem(), path+"("+v.Elem().Type().String()+")", out, seen, depth+1)
+		w.path = append(w.path, '(')
+		w.path = append(w.path, v.Elem().Type().String()...)
+		w.path = append(w.path, ')')
+		w.deep(v.Elem(), depth+1)
 	case reflect.Struct:
 		if v.NumField() == 0 {
-			*out = append(*out, path+" = {}")
+			w.line("{}")
 		}
+		t := v.Type()
 		for i := 0; i < v.NumField(); i++ {
-			deep(v.Field(i), path+"."+v.Type().Field(i).Name, out, seen, depth+1)
+			w.path = append(w.path[:n], '.')
+			w.path = append(w.path, t.Field(i).Name...)
+			w.deep(v.Field(i), depth+1)
 		}
 	case reflect.Slice:
 		if v.IsNil() {
-			*out = append(*out, path+" = nil")
+			w.line("nil")
 			return
 		}
 		if v.Type().Elem().Kind() == reflect.Uint8 {
-			*out = append(*out, path+" = bytes:"+strconv.Quote(string(v.Bytes())))
+			w.out = append(w.out, w.path...)
+			w.out = append(w.out, " = bytes:"...)
+			w.out = strconv.AppendQuote(w.out, string(v.Bytes()))
+			w.out = append(w.out, '\n')
 			return
 		}
-		*out = append(*out, fmt.Sprintf("%s.len = %d", path, v.Len()))
+		w.path = append(w.path, ".len"...)
+		w.line(strconv.Itoa(v.Len()))
 		for i := 0; i < v.Len(); i++ {
-			deep(v.Index(i), fmt.Sprintf("%s[%d]", path, i), out, seen, depth+1)
+			w.path = append(w.path[:n], '[')
+			w.path = strconv.AppendInt(w.path, int64(i), 10)
+			w.path = append(w.path, ']')
+			w.deep(v.Index(i), depth+1)
 		}
 	case reflect.Array:
 		for i := 0; i < v.Len(); i++ {
-			deep(v.Index(i), fmt.Sprintf("%s[%d]", path, i), out, seen, depth+1)
+			w.path = append(w.path[:n], '[')
+			w.path = strconv.AppendInt(w.path, int64(i), 10)
+			w.path = append(w.path, ']')
+			w.deep(v.Index(i), depth+1)
 		}
 	case reflect.Map:
 		if v.IsNil() {
-			*out = append(*out, path+" = nil")
+			w.line("nil")
 			return
 		}
-		*out = append(*out, fmt.Sprintf("%s.len = %d", path, v.Len()))
+		w.path = append(w.path, ".len"...)
+		w.line(strconv.Itoa(v.Len()))
 		keys := v.MapKeys()
 		ks := make([]string, len(keys))
-		idx := map[string]reflect.Value{}
+		idx := make(map[string]reflect.Value, len(keys))
 		for i, k := range keys {
-			ks[i] = fmt.Sprintf("%v", scalar(k))
+			ks[i] = fmt.Sprint(scalar(k))
 			idx[ks[i]] = k
 		}
 		sort.Strings(ks)
 		for _, k := range ks {
-			deep(v.MapIndex(idx[k]), path+"{"+k+"}", out, seen, depth+1)
+			w.path = append(w.path[:n], '{')
+			w.path = append(w.path, k...)
+			w.path = append(w.path, '}')
+			w.deep(v.MapIndex(idx[k]), depth+1)
 		}
 	case reflect.Func, reflect.Chan, reflect.UnsafePointer:
 		if v.IsNil() {
-			*out = append(*out, path+" = nil")
+			w.line("nil")
 		} else {
-			*out = append(*out, path+" = <"+v.Kind().String()+">")
+			w.line("<" + v.Kind().String() + ">")
 		}
+	case reflect.String:
+		w.out = append(w.out, w.path...)
+		w.out = append(w.out, " = "...)
+		w.out = strconv.AppendQuote(w.out, v.String())
+		w.out = append(w.out, '\n')
+	case reflect.Bool:
+		w.line(strconv.FormatBool(v.Bool()))
+	case reflect.Int, reflect.Int8, reflect.Int16, reflect.Int32, reflect.Int64:
+		w.line(strconv.FormatInt(v.Int(), 10))
+	case reflect.Uint, reflect.Uint8, reflect.Uint16, reflect.Uint32, reflect.Uint64, reflect.Uintptr:
+		w.line(strconv.FormatUint(v.Uint(), 10))
 	default:
-		*out = append(*out, fmt.Sprintf("%s = %v", path, scalar(v)))
+		w.line(fmt.Sprint(scalar(v)))
 	}
 }
 
@@ -141,6 +197,14 @@ func AssertNoFilePaths(v interface{}) {
 			panic("c20: refusing to install a configuration with a file path: " + l)
 		}
 	}
+}
+
+// FirstDiffBytes is FirstDiff on DeepBytes buffers.
+func FirstDiffBytes(a, b []byte) (string, string, bool) {
+	if bytes.Equal(a, b) {
+		return "", "", false
+	}
+	return FirstDiff(strings.Split(string(a), "\n"), strings.Split(string(b), "\n"))
 }
 
 // FirstDiff returns the first line that differs between two renderings.
@@ -189,6 +253,17 @@ func TypePath(line string) string {
 		}
 	}
 	return strings.ReplaceAll(b.String(), "()", "")
+}
+
+// KeyPath is TypePath cut after its fourth component: enough to name the
+// object that changed (e.g. *.MosnConfig.Servers[].Listeners[]) while one
+// defect touching several fields of it keeps one finding key.
+func KeyPath(line string) string {
+	parts := strings.Split(TypePath(line), ".")
+	if len(parts) > 4 {
+		parts = parts[:4]
+	}
+	return strings.Join(parts, ".")
 }
 
 // CanonJSON parses b and re-encodes it with object keys sorted and the
